@@ -102,6 +102,17 @@ def goInt64 (x : FV) : Int :=
   | .fin .. => let t := truncInt x; if -(2^63 : Int) ≤ t ∧ t < 2^63 then t else -(2^63 : Int)
   | _ => -(2^63 : Int)
 
+def two63 : FV := .fin false 1 63
+def negTwo63 : FV := .fin true 1 63
+def two64 : FV := .fin false 1 64
+
+/-- Go (amd64) `uint64(f)` for 0 ≤ f: truncation below 2^64, else 0x8000000000000000 -/
+def goUint64 (x : FV) : Int :=
+  match x with
+  | .fin false m e => let t : Int := truncAbs m e; if t < 2^64 then t else 2^63
+  | .fin true m e => let t : Int := truncAbs m e; if t = 0 then 0 else 2^63   -- not reached (range-checked)
+  | _ => 2^63
+
 /-- reflect OverflowInt / OverflowUint for the kind `k` applied to an in-range int64 / uint64 -/
 def overflows (k : IK) (i : Int) : Bool := decide (i < k.lo) || decide (k.hi < i)
 
@@ -135,8 +146,10 @@ def convertNumeric (v : Num) (t : NT) : Res Num :=
     | .f64 => .ok (.f64 x)
     | .f32 => if overflowFloat32 x then .rangeErr else .ok (.f32 (toF32 x))  -- l.231
     | .i _ =>
-      let i64 := goInt64 x                                                  -- l.237
-      if eqNum (ofInt i64) x then convertFromInt true i64 t                 -- l.238, then l.250
+      if le two63 x && lt x two64 then convertFromInt false (goUint64 x) t  -- [2^63, 2^64): through uint64, then l.270
+      else
+      let i64 := goInt64 x                                                  -- int64(f64)
+      if eqNum (ofInt i64) x then convertFromInt true i64 t                 -- float64(i64) != f64, then l.250
       else .rangeErr
 
 /-! ## Go types, JavaScript values, Go values -/
@@ -322,41 +335,8 @@ def intDec (i : Int) : Str := if i < 0 then 45 :: natDec i.natAbs else natDec i.
 
 def ofAscii (s : String) : Str := s.toList.map Char.toNat
 
-def stripTrailingZeros (ds : Str) : Str := (ds.reverse.dropWhile (· = 48)).reverse
-
-/-- strconv.FormatFloat(x,'g',-1,64) layout for shortest digits `ds` of an integer with decimal digits `all`:
-    eprec = 6 when shortest (ftoa.go: %e is used if exp < -4 || exp >= eprec); exponent has at least two digits -/
-def goG (ds all : Str) (exp : Nat) : Str :=
-  if exp ≥ 6 then
-    let mant : Str := match ds with
-      | [] => []
-      | d :: [] => [d]
-      | d :: rest => d :: 46 :: rest
-    let e2 : Str := if exp < 10 then 48 :: natDec exp else natDec exp
-    mant ++ [101, 43] ++ e2
-  else all
-
-/-- Go `fmt.Sprintf("%v", x)` for a float64 (= strconv 'g', shortest digits).
-    Modelled for NaN, ±Inf, ±0 and integral |x| < 2^53 (whose shortest digits are the decimal digits without
-    trailing zeros); other doubles are never generated for this path (`none`). -/
-def goFmtFloat (x : FV) : Option Str :=
-  match x with
-  | .nan => some (ofAscii "NaN")
-  | .inf s => some (ofAscii (if s then "-Inf" else "+Inf"))
-  | .fin s m e =>
-    if m = 0 then some (ofAscii (if s then "-0" else "0"))
-    else if isIntegral m e ∧ truncAbs m e < 2^53 then
-      let all := natDec (truncAbs m e)
-      some ((if s then [45] else []) ++ goG (stripTrailingZeros all) all (all.length - 1))
-    else none
-
-/-- what `fmt.Sprintf("%v", v.value)` prints for a number Value (runtime.go:416) -/
-def goFmtV : Num → Option Str
-  | .int _ i => some (intDec i)
-  | .f64 x => goFmtFloat x
-  | .f32 _ => none
-
-/-- JavaScript ToString of a Number (ES5 9.8.1), modelled on the same restricted domain -/
+/-- JavaScript ToString of a Number (ES5 9.8.1, Value.string), modelled for integer payloads below 2^53 and for
+    doubles that are NaN, ±Inf, ±0 or integral below 2^53 (`none` otherwise; never generated for string targets) -/
 def jsNumToString (n : Num) : Option Str :=
   let x : FV := match n with | .int _ i => ofInt i | .f32 x | .f64 x => x
   match n, x with
@@ -471,7 +451,7 @@ def asAny : GV → GV
   | v => .any v
 
 /-- the tail of export for an Array once the elements are exported (value.go:671-693) -/
-def exportArrayFinish (strict : Bool) (elems : List GV) : Res GV :=
+def exportArrayFinish (elems : List GV) : Res GV :=
   match elems.getLast? with
   | none => .ok (.slice .nil)                                  -- state 0: []interface{}{}
   | some last =>
@@ -481,29 +461,28 @@ def exportArrayFinish (strict : Bool) (elems : List GV) : Res GV :=
       .ok (.slice (GVs.ofList (elems.map asAny)))              -- no common type: []interface{}
     else if elems.all (fun e => gvType e = gvType last) then
       .ok (.slice (GVs.ofList elems))                          -- []T
-    else if strict then .goPanic                               -- reflect.Set: value not assignable (l.691)
-    else .ok (.slice (GVs.ofList (elems.map asAny)))
+    else .ok (.slice (GVs.ofList (elems.map asAny)))            -- elements of different types: no common type
 
 mutual
-def exportV (strict : Bool) : JV → Res GV
+def exportV : JV → Res GV
   | .undef | .null => .ok .anyNil
   | .bool b => .ok (.bool b)
   | .num n => .ok (.num n)
   | .str s => .ok (.str s)
-  | .arr es => (exportElems strict es).bind (exportArrayFinish strict)
-  | .obj ps => (exportProps strict ps).map .map
+  | .arr es => (exportElems es).bind exportArrayFinish
+  | .obj ps => (exportProps ps).map .map
 /-- holes are skipped (`!obj.hasProperty(name)`, value.go:652) -/
-def exportElems (strict : Bool) : JVs → Res (List GV)
+def exportElems : JVs → Res (List GV)
   | .nil => .ok []
-  | .hole r => exportElems strict r
-  | .cons v r => (exportV strict v).bind (fun a => (exportElems strict r).map (a :: ·))
+  | .hole r => exportElems r
+  | .cons v r => (exportV v).bind (fun a => (exportElems r).map (a :: ·))
 /-- undefined-valued properties are skipped (value.go:700) -/
-def exportProps (strict : Bool) : JPs → Res GPs
+def exportProps : JPs → Res GPs
   | .nil => .ok .nil
   | .cons k v r =>
     match v with
-    | .undef => exportProps strict r
-    | _ => (exportV strict v).bind (fun a => (exportProps strict r).map (fun m => GPs.set k (asAny a) m))
+    | .undef => exportProps r
+    | _ => (exportV v).bind (fun a => (exportProps r).map (fun m => GPs.set k (asAny a) m))
 end
 
 /-! ## convertCallParameter (runtime.go:341) -/
@@ -513,19 +492,15 @@ structure Leaf where
   num : Num → NT → Res Num            -- numeric conversion
   numStr : Num → Option Str           -- number → Go string parameter
   holeIsUndefined : Bool              -- an array hole converts like `undefined` (else: left at the zero value)
-  exportStrict : Bool                 -- export() of an array whose elements share the (Kind, key Kind, elem Kind) triple
-                                      -- but not the type panics in reflect.Set (value.go:691) instead of falling back
-  ptrAnyPanics : Bool                 -- `*interface{}` targets: the pointer is made to the DYNAMIC type (l.402) and the
-                                      -- later reflect Set/Call panics with a type mismatch
 
-/-- pointers: undefined/null → nil pointer, otherwise a fresh pointer chain to the converted pointee (l.387) -/
+/-- pointers: undefined/null → nil pointer, otherwise a fresh pointer of the PARAMETER's element type to the
+    converted pointee (runtime.go:387-404) -/
 def GT.isAny : GT → Bool
   | .any => true
   | _ => false
 
-def ptrWrap (L : Leaf) (t : GT) (v : JV) (r : Res GV) : Res GV :=
+def ptrWrap (t : GT) (v : JV) (r : Res GV) : Res GV :=
   if t.depth > 0 ∧ v.isNullish then .ok .ptrNil
-  else if t.depth > 0 ∧ t.base.isAny ∧ L.ptrAnyPanics then r.bind (fun _ => .goPanic)
   else r.map (wrapPtr t.depth)
 
 def natKey (i : Nat) : Str := natDec i
@@ -543,7 +518,7 @@ mutual
 def convB (L : Leaf) (v : JV) (t : GT) : Res GV :=
   match t with
   | .ptr _ => .typeErr                                          -- not reached: `t` is a base type
-  | .any => (exportV L.exportStrict v).map asAny                -- l.376
+  | .any => (exportV v).map asAny                               -- l.376
   | .bool => .ok (.bool (toBool v))                             -- l.409
   | .str =>                                                     -- l.411, l.582
     match v with
@@ -571,21 +546,21 @@ def convElems (L : Leaf) (es : JVs) (tt : GT) : Res GVs :=
   match es with
   | .nil => .ok .nil
   | .hole r =>
-    (if L.holeIsUndefined then ptrWrap L tt .undef (convUndefB tt.base) else .ok tt.zero).bind
+    (if L.holeIsUndefined then ptrWrap tt .undef (convUndefB tt.base) else .ok tt.zero).bind
       (fun a => (convElems L r tt).map (.cons a ·))
-  | .cons v r => (ptrWrap L tt v (convB L v tt.base)).bind (fun a => (convElems L r tt).map (.cons a ·))
+  | .cons v r => (ptrWrap tt v (convB L v tt.base)).bind (fun a => (convElems L r tt).map (.cons a ·))
 def convProps (L : Leaf) (ps : JPs) (tt : GT) : Res GPs :=
   match ps with
   | .nil => .ok .nil
   | .cons k v r =>
-    (ptrWrap L tt v (convB L v tt.base)).bind (fun a => (convProps L r tt).map (fun m => .cons k a m))
+    (ptrWrap tt v (convB L v tt.base)).bind (fun a => (convProps L r tt).map (fun m => .cons k a m))
 /-- an Array given for a map parameter: its index properties are enumerated -/
 def convIndexed (L : Leaf) (es : JVs) (i : Nat) (tt : GT) : Res GPs :=
   match es with
   | .nil => .ok .nil
   | .hole r => convIndexed L r (i+1) tt
   | .cons v r =>
-    (ptrWrap L tt v (convB L v tt.base)).bind (fun a => (convIndexed L r (i+1) tt).map (fun m => .cons (natKey i) a m))
+    (ptrWrap tt v (convB L v tt.base)).bind (fun a => (convIndexed L r (i+1) tt).map (fun m => .cons (natKey i) a m))
 /-- the struct loop over o.propertyOrder (l.545); `acc` is the struct being filled -/
 def convFields (L : Leaf) (ps : JPs) (st : GT) (acc : GV) : Res GV :=
   match ps with
@@ -596,13 +571,13 @@ def convFields (L : Leaf) (ps : JPs) (st : GT) (acc : GV) : Res GV :=
     | some idx =>
       match typeAt st idx with
       | none => .typeErr
-      | some ft => (ptrWrap L ft v (convB L v ft.base)).bind (fun a => convFields L r st (gvSetAt acc idx a))
+      | some ft => (ptrWrap ft v (convB L v ft.base)).bind (fun a => convFields L r st (gvSetAt acc idx a))
 end
 
-def conv (L : Leaf) (v : JV) (t : GT) : Res GV := ptrWrap L t v (convB L v t.base)
+def conv (L : Leaf) (v : JV) (t : GT) : Res GV := ptrWrap t v (convB L v t.base)
 
-/-- the code: convertNumeric, Go `%v` formatting, holes skipped -/
-def modelLeaf : Leaf := { num := convertNumeric, numStr := goFmtV, holeIsUndefined := false, exportStrict := true, ptrAnyPanics := true }
+/-- the code: convertNumeric, Value.string for numbers, elements read with [[Get]] (a hole is undefined) -/
+def modelLeaf : Leaf := { num := convertNumeric, numStr := jsNumToString, holeIsUndefined := true }
 
 def convertCallParameter (v : JV) (t : GT) : Res GV := conv modelLeaf v t
 
@@ -620,43 +595,23 @@ def Res.isGoPanic {α} : Res α → Bool
   | .goPanic => true
   | _ => false
 
-/-- a top-level `*interface{}` parameter: the wrongly typed pointer is only rejected by reflect.Call, i.e.
-    AFTER the remaining arguments have been converted, so a later argument's error is reported first -/
-def deferredPanic (L : Leaf) (a : JV) (t : GT) : Bool :=
-  decide (t.depth > 0) && t.base.isAny && L.ptrAnyPanics && !a.isNullish && !(exportV L.exportStrict a).isGoPanic
-
-/-- convert the fixed (non-variadic-tail) arguments one by one; first failure wins.  A deferred
-    `*interface{}` argument does not fail here (placeholder), see `finishCall`. -/
+/-- convert the fixed (non-variadic-tail) arguments one by one; first failure wins -/
 def convArgs (L : Leaf) : List JV → List GT → Res (List GV)
   | [], _ => .ok []
   | _, [] => .ok []
-  | a :: as, t :: ts =>
-    if deferredPanic L a t then (convArgs L as ts).map (.ptrNil :: ·)
-    else (conv L a t).bind (fun g => (convArgs L as ts).map (g :: ·))
+  | a :: as, t :: ts => (conv L a t).bind (fun g => (convArgs L as ts).map (g :: ·))
 
 def convAll (L : Leaf) (as : List JV) (t : GT) : Res (List GV) :=
   match as with
   | [] => .ok []
-  | a :: r =>
-    if deferredPanic L a t then (convAll L r t).map (.ptrNil :: ·)
-    else (conv L a t).bind (fun g => (convAll L r t).map (g :: ·))
-
-def deferredIn (L : Leaf) : List JV → List GT → Bool
-  | a :: as, t :: ts => deferredPanic L a t || deferredIn L as ts
-  | _, _ => false
-
-/-- val.Call(in): every argument converted; a wrongly typed `*interface{}` now makes reflect panic -/
-def finishCall (deferred : Bool) (r : Res (List GV)) : Res (List GV) :=
-  match r with
-  | .ok gs => if deferred then .goPanic else .ok gs
-  | e => e
+  | a :: r => (conv L a t).bind (fun g => (convAll L r t).map (g :: ·))
 
 /-- what the Go callee receives (its parameter list; the variadic tail as one slice), or the error -/
 def callWrapper (L : Leaf) (sig : Sig) (args : List JV) : Res (List GV) :=
   let nargs := sig.ins.length
   if ¬ sig.variadic then
     if args.length ≠ nargs then .rangeErr                                   -- l.716
-    else finishCall (deferredIn L args sig.ins) (convArgs L args sig.ins)
+    else convArgs L args sig.ins
   else
     if args.length < nargs - 1 then .rangeErr                                -- l.713
     else
@@ -664,8 +619,7 @@ def callWrapper (L : Leaf) (sig : Sig) (args : List JV) : Res (List GV) :=
       let et := sig.ins.getLastD .any
       let fixedA := args.take (nargs - 1)
       let tailA := args.drop (nargs - 1)
-      finishCall (deferredIn L fixedA fixedT || (tailA.length ≠ 1 && tailA.any (fun a => deferredPanic L a et)))
-      ((convArgs L fixedA fixedT).bind (fun fixed =>
+      (convArgs L fixedA fixedT).bind (fun fixed =>
         -- l.743: exactly nargs arguments: try the last one as the whole variadic slice
         match tailA with
         | [a] =>
@@ -674,7 +628,7 @@ def callWrapper (L : Leaf) (sig : Sig) (args : List JV) : Res (List GV) :=
            | .typeErr => (conv L a et).map (fun g => fixed ++ [.slice (.cons g .nil)])
            | .rangeErr => .rangeErr
            | .goPanic => .goPanic)
-        | _ => (convAll L tailA et).map (fun gs => fixed ++ [.slice (GVs.ofList gs)])))
+        | _ => (convAll L tailA et).map (fun gs => fixed ++ [.slice (GVs.ofList gs)]))
 
 /-! ## Value.toReflectValue (value.go:741): the conversion used by slice / array / map writes -/
 
@@ -697,9 +651,6 @@ def toIntegerFloat (f : FV) : FV :=
   else if lt zero f then floor f
   else ceil f
 
-def two63 : FV := .fin false 1 63
-def negTwo63 : FV := .fin true 1 63
-def two64 : FV := .fin false 1 64
 
 /-- Value.number().int64 (value_number.go:144) -/
 def numberInt64 (v : JV) : Option Int :=
@@ -712,21 +663,14 @@ def numberInt64 (v : JV) : Option Int :=
   match v with
   | .num (.int k i) =>
     (match k with
-     | .i8 | .i16 | .u8 | .u16 | .u32 | .int | .i64 => some i
-     | _ => viaFloat)
+     | .uint | .u64 => if i ≤ 2^63 - 1 then some i else viaFloat      -- uint/uint64 above MaxInt64 take the float path
+     | _ => some i)
   | _ => viaFloat
 
-/-- Go (amd64) `uint64(f)` for 0 ≤ f: truncation below 2^64, else 0x8000000000000000 -/
-def goUint64 (x : FV) : Int :=
-  match x with
-  | .fin false m e => let t : Int := truncAbs m e; if t < 2^64 then t else 2^63
-  | .fin true m e => let t : Int := truncAbs m e; if t = 0 then 0 else 2^63   -- not reached (range-checked)
-  | _ => 2^63
-
-/-- `_, frac := math.Modf(x); frac > 0` -/
-def fracPositive : FV → Bool
-  | .fin false m e => !isIntegral m e
-  | _ => false
+/-- `_, frac := math.Modf(x); frac != 0` (the fraction of NaN and of ±Inf is NaN, and NaN != 0) -/
+def fracNonzero : FV → Bool
+  | .fin _ m e => !isIntegral m e
+  | _ => true
 
 def smallestF32 : FV := .fin false 1 (-149)
 
@@ -734,13 +678,13 @@ def smallestF32 : FV := .fin false 1 (-149)
     goSliceObject.setValue, goArrayObject.setValue and goMapObject.toValue.
     A returned `error` (every message starts with "RangeError: ") is raised by the callers through
     `goValueError` (type_go_slice.go:30, since fix bb377a4) as a JavaScript RangeError = `.rangeErr`.
-    `.goPanic` remains for genuine Go panics inside the conversion: `Value.float64` on a float32 payload
-    (value_number.go:84) and reflect's Set of the invalid Value. -/
+    `.goPanic` remains for the genuine Go panic inside the conversion: `Value.float64` on a float32 payload
+    (value_number.go:84). -/
 def toReflectValue (v : JV) (t : GT) : Res GV :=
-  let pre : Bool :=                                            -- l.743-758
+  let pre : Bool :=                                            -- the fraction guard (not for float, interface, bool, string kinds)
     match t with
-    | .num .f32 | .num .f64 | .any => false
-    | _ => (match v with | .num (.f32 x) | .num (.f64 x) => fracPositive x | _ => false)
+    | .num .f32 | .num .f64 | .any | .bool | .str => false
+    | _ => (match v with | .num (.f32 x) | .num (.f64 x) => fracNonzero x | _ => false)
   if pre then .rangeErr else
   match t with
   | .bool => .ok (.bool (toBool v))                            -- l.761
@@ -751,14 +695,14 @@ def toReflectValue (v : JV) (t : GT) : Res GV :=
         | none => .goPanic
         | some f =>
           let tmp := toIntegerFloat f
-          if lt tmp negTwo63 || lt two63 tmp then .rangeErr
+          if lt tmp negTwo63 || le two63 tmp then .rangeErr          -- tmp >= 2^63
           else .ok (.num (.int k (goInt64 tmp))))
      | .uint | .u64 =>                                         -- l.797, l.823
        (match toFloat v with
         | none => .goPanic
         | some f =>
           let tmp := toIntegerFloat f
-          if lt tmp zero || lt two64 tmp then .rangeErr
+          if lt tmp zero || le two64 tmp then .rangeErr              -- tmp >= 2^64
           else .ok (.num (.int k (goUint64 tmp))))
      | _ =>                                                    -- Int8/16/32, Uint8/16/32
        (match numberInt64 v with
@@ -769,14 +713,14 @@ def toReflectValue (v : JV) (t : GT) : Res GV :=
      | none => .goPanic
      | some tmp =>
        let a := abs tmp
-       if lt zero a && (lt a smallestF32 || lt maxF32 a) then .rangeErr
+       if lt zero a && !isInf a && (lt a smallestF32 || lt maxF32 a) then .rangeErr
        else .ok (.num (.f32 (toF32 tmp))))
   | .num .f64 => (match toFloat v with | none => .goPanic | some x => .ok (.num (.f64 x)))   -- l.841
   | .str => (match jsToString v with | some s => .ok (.str s) | none => .goPanic)            -- l.844 (none: not modelled)
   | .any =>                                                    -- default branch, l.853
     (match v with
-     | .undef | .null => .goPanic            -- reflect.ValueOf(nil) is the invalid Value; Set panics in reflect
-     | .arr _ | .obj _ => (exportV true v).map asAny
+     | .undef | .null => .ok .anyNil         -- reflect.Zero(typ): the nil interface value
+     | .arr _ | .obj _ => (exportV v).map asAny
      | .bool b => .ok (.any (.bool b))
      | .num n => .ok (.any (.num n))
      | .str s => .ok (.any (.str s)))
@@ -788,7 +732,8 @@ def jsView : GV → Option GV
   | .anyNil | .ptrNil => none                       -- nil reads as undefined (value.go:325)
   | .any v => jsView v                              -- the dynamic value
   | .ptr (.struct fs) => some (.ptr (.struct fs))   -- a *struct stays a bridged struct object
-  | .ptr (.num n) => some (.num n)                  -- drilled through by the reflect path, which keeps float32 (value.go:319,353)
+  | .ptr (.num (.f32 x)) => some (.num (.f64 x))    -- drilled through by the reflect path (value.go:319), float32 widened
+  | .ptr (.num n) => some (.num n)
   | .ptr v => jsView v
   | g => some g
 
@@ -836,6 +781,7 @@ inductive SOp where
   | jsWrite (i : Nat) (v : JV)
   | jsLen
   | jsSetLen (n : Nat)
+  | jsSetLenNeg                  -- `s.length = -1`
   | jsDelete (i : Nat)
   | goRead (i : Nat)
   | goWrite (i : Nat) (x : GV)
@@ -860,7 +806,6 @@ def Obs.isFail : Obs → Bool
 /-- the two places where the property text (Spec) and the code (Model) may differ on container writes -/
 structure StoreSem where
   cv : JV → GT → Res GV          -- conversion applied to a stored value
-  setLenPanics : Bool            -- shrinking `length` within capacity hits reflect's "unaddressable" panic
 
 def sliceStep (S : StoreSem) (s : SliceSt) : SOp → SliceSt × Obs
   | .jsRead i =>                                                -- goSliceGetOwnProperty
@@ -881,11 +826,10 @@ def sliceStep (S : StoreSem) (s : SliceSt) : SOp → SliceSt × Obs
     | .goPanic => (s, .goPanic)
     | .typeErr => (s, .typeErr)
     | .rangeErr => (s, .rangeErr)
-  | .jsSetLen n =>                                              -- goSliceObject.setLength (l.33)
+  | .jsSetLenNeg => (s, .rangeErr)                              -- goSliceObject.setLength: negative length
+  | .jsSetLen n =>                                              -- goSliceObject.setLength
     if n = s.js.len then (s, .unit)
-    else if n < s.js.cap then
-      (if S.setLenPanics then (s, .goPanic)                     -- reflect.Value.SetLen using unaddressable value
-       else ({ s with js := { s.js with len := n } }, .unit))
+    else if n < s.js.cap then ({ s with js := { s.js with len := n } }, .unit)   -- reslice of the object's own header
     else
       let fresh := s.view s.js ++ List.replicate (n - s.js.len) s.et.zero
       ({ s with heap := s.heap ++ [fresh], js := { addr := s.heap.length, len := n, cap := n } }, .unit)
@@ -900,8 +844,8 @@ def sliceRun (S : StoreSem) (s : SliceSt) : List SOp → SliceSt × List Obs
     if o.isFail then (s', [o])
     else let (s'', os) := sliceRun S s' rest; (s'', o :: os)
 
-/-- the code: toReflectValue (errors raised as RangeError), and SetLen on the unaddressable reflect.Value panics -/
-def modelStore : StoreSem := { cv := toReflectValue, setLenPanics := true }
+/-- the code: toReflectValue (errors raised as RangeError) -/
+def modelStore : StoreSem := { cv := toReflectValue }
 
 def SliceSt.init (et : GT) (elems : List GV) (cap : Nat) : SliceSt :=
   let c := max cap elems.length
